@@ -94,6 +94,10 @@ class Val:
 
 
 def py_type_of(o):
+    import enum as _enum
+
+    if isinstance(o, _enum.Enum) and not isinstance(o, int):
+        return T.enum_type_of(o)
     if isinstance(o, bool):
         return T.BOOL
     if isinstance(o, int):
@@ -151,6 +155,10 @@ def lift(v: Val, want: T.Ty | None = None):
 def _lift_py(o, t):
     if isinstance(o, Val):
         return lift(o, t)
+    if isinstance(t, T.Enum):
+        if isinstance(o, t.pycls()):
+            return t.const(o)
+        raise ContractMisfit(f"{o!r} is not a member of {t}")
     if t == T.BOOL:
         return z3.BoolVal(bool(o))
     if t == T.INT:
@@ -236,6 +244,13 @@ def fresh_map_default(t: T.Dict):
 def coerce(v: Val, want: T.Ty) -> Val:
     if v.ty == want and not v.is_py:
         return v
+    import enum as _enum
+
+    if isinstance(want, T.Enum) and v.is_py and isinstance(v.py, _enum.Enum):
+        return Val(want, _lift_py(v.py, want))
+    if isinstance(v.ty, T.Enum) and not v.is_py and want in (T.INT, T.REAL) and v.ty.value_type() == T.INT and issubclass(v.ty.pycls(), int):
+        iv = Val(T.INT, v.ty.chain(v.term, lambda m: z3.IntVal(int(m.value))))  # an IntEnum member used as a number
+        return iv if want == T.INT else Val(T.REAL, z3.ToReal(iv.term))
     if v.is_py and v.ty is not PYOBJ or (v.is_py and isinstance(v.py, _CONST_TYPES)):
         if isinstance(v.py, _CONST_TYPES) or isinstance(v.py, Val):
             if want is PYOBJ:
